@@ -1104,6 +1104,9 @@ class Elemwise(Blockwise):
 
         from dask_array._new_collection import new_collection
 
+        if isinstance(self.where, ArrayExpr):
+            # a ``where=`` array (and the ``out`` it selects from) would have to be sliced too
+            return None
         out_ind = self.out_ind
         index = slice_expr.index
 
@@ -1162,7 +1165,9 @@ class Elemwise(Blockwise):
             self.operand("dtype"),
             self.operand("name"),
             self.where,
-            self.out,
+            # with ``where=True`` the ``out=`` array is never read; keeping it un-sliced would
+            # only make the sliced node's shapes inconsistent
+            None,
             self.operand("_user_kwargs"),
             *new_args,
         )
